@@ -74,3 +74,53 @@ void h_B_Parameter_write_int(void)
   __CPROVER_assert(*dsp == dsp0, "only POINT:DATA_START records its position");
   VF_CANARY();
 }
+
+/* ---------------------------------------------------------------- one-dimensional CHAR parameter (the shape the reader
+ * produces for a padded text: declared width kept in dimension[0], text trimmed): the cell must have the declared width,
+ * text then spaces (C04: load -> save -> load; C14: every byte defined, nothing read past the string).
+ * Bound: declared width 1..4, text no longer than the width, name 1..2 characters, description <= 2. */
+void h_B_Parameter_write_char1d(void)
+{
+  struct Parameter *self = (struct Parameter *)vf_alloc(sizeof(*self));
+  size_t L = nondet_size_t(), D = nondet_size_t(), w = nondet_size_t(), t = nondet_size_t();
+  __CPROVER_assume(L >= 1 && L <= 2 && D <= 2 && w >= 1 && w <= 4 && t <= w);
+  self->_name.size = L; self->_name.data = (char *)vf_alloc(3); self->_name.data[L] = 0;
+  self->_description.size = D; self->_description.data = (char *)vf_alloc(3); self->_description.data[D] = 0;
+  self->_data_type = -1;
+  self->_dimension.size = 1;
+  self->_dimension.data = (size_t *)vf_alloc(sizeof(size_t));
+  self->_dimension.data[0] = w;
+  self->_param_data_int.size = 0; self->_param_data_int.data = 0;
+  self->_param_data_float.size = 0; self->_param_data_float.data = 0;
+  self->_param_data_string.size = 1;
+  self->_param_data_string.data = (vf_string *)vf_alloc(sizeof(vf_string));
+  self->_param_data_string.data[0].size = t;
+  self->_param_data_string.data[0].data = (char *)vf_alloc(t + 1);   /* exactly the string: reading past it is an error */
+  self->_param_data_string.data[0].data[t] = 0;
+  vf_stream *f = vf_mk_ostream(CAPW);
+  size_t p0 = nondet_size_t();
+  __CPROVER_assume(p0 <= 1);
+  f->pos = (long)p0; f->len = p0;
+  int gid = nondet_int();
+  __CPROVER_assume(gid >= 1 && gid <= 127);
+  vf_spos *dsp = (vf_spos *)vf_alloc(sizeof(vf_spos));
+  vf_fault_enabled = 0; vf_exc = 0;
+  Parameter__write(self, f, gid, dsp);
+  size_t ndw = (w == 1) ? 0 : 1;
+  size_t data_at = p0 + 2 + L + 2 + 1 + 1 + ndw;
+  size_t desc_at = data_at + w;
+  size_t end = desc_at + 1 + D;
+  /*@ C03 C04 C14 : Parameter_write_char1d.cell-has-the-declared-width */
+  __CPROVER_assert(vf_exc == 0 && !f->fail && (size_t)f->pos == end && f->len == end, "the text cell is dimension[0] bytes wide");
+  /*@ C03 C04 : Parameter_write_char1d.type-and-dimension */
+  __CPROVER_assert(BB(p0 + 4 + L) == 0xFF && BB(p0 + 5 + L) == ndw && (ndw == 0 || BB(p0 + 6 + L) == w), "type -1, one dimension = the declared width");
+  /*@ C04 C14 : Parameter_write_char1d.text-bytes */
+  __CPROVER_assert(vf_gc >= t || BB(data_at + vf_gc) == (unsigned char)self->_param_data_string.data[0].data[vf_gc], "the text");
+  /*@ C04 C14 : Parameter_write_char1d.text-padded-with-spaces */
+  __CPROVER_assert(!(vf_gc >= t && vf_gc < w) || BB(data_at + vf_gc) == ' ', "padded with spaces up to the declared width");
+  /*@ C03 C02 : Parameter_write_char1d.offset-to-the-next-record */
+  __CPROVER_assert((BB(p0 + 2 + L) | (BB(p0 + 3 + L) << 8)) == end - (p0 + 2 + L), "offset word");
+  /*@ C03 C04 : Parameter_write_char1d.description */
+  __CPROVER_assert(BB(desc_at) == D && (vf_gn >= D || BB(desc_at + 1 + vf_gn) == (unsigned char)self->_description.data[vf_gn]), "description length and characters");
+  VF_CANARY();
+}
